@@ -245,7 +245,7 @@ fn main() {
     let main_cfg = GenCfg { comments: CommentClass::Rich, empty_comments: true, ..GenCfg::default() };
     let loose_cfg = GenCfg { unique_per_namespace: false, absent: (1, 2), ..main_cfg.clone() };
     let hostile_cfg = GenCfg { comments: CommentClass::Hostile, comment_chance: (1, 2), max_classes: 3, big: (0, 1), ..GenCfg::default() };
-    let n = ctx.tier.pick(40_000, 1_200_000);
+    let n = ctx.tier.pick(150_000, 1_200_000);
     run_cases(&ctx, &replay, &mut rep, "main", n, |rng, rep, i| {
         let cfg = if i % 5 == 4 { &loose_cfg } else { &main_cfg };
         match i % 3 { 0 => case::<2>(rng, rep, cfg, false), 1 => case::<3>(rng, rep, cfg, false), _ => case::<4>(rng, rep, cfg, false) }
